@@ -331,7 +331,7 @@ def run_case(case):
             rec["op"] = "del"
             rec["desc"] = ("del", path)
             if rec["kind"] == "run":
-                rec["request"] = "(delete %s %s)" % (rec["before"], rec["coords_sexp"])
+                rec["request"] = "(delete %s %s %s)" % (rec["before"], rec["coords_sexp"], rec["mg_sexp"])
         if rec["kind"] == "run":
             # dump + strict reload of the real document after the step
             try:
